@@ -3,6 +3,7 @@ package main
 
 import (
 	"io"
+	"os"
 	"path/filepath"
 
 	"github.com/containerd/stargz-snapshotter/cmd/containerd-stargz-grpc/db"
@@ -25,6 +26,13 @@ func main() {
 			}
 			r, err := db.NewReader(bdb, sr, opts...)
 			if err != nil {
+				bdb.Close()
+				return nil, nil, err
+			}
+			// The TOC is loaded in the background; wait for it (a listing does) so that a refused layer is reported
+			// as such and the root attributes are final (GetAttr(root) alone does not wait: C05 known finding F13).
+			if err := r.ForeachChild(r.RootID(), func(string, uint32, os.FileMode) bool { return false }); err != nil {
+				r.Close()
 				bdb.Close()
 				return nil, nil, err
 			}
